@@ -140,7 +140,7 @@ Qed.
 (* For ANY byte input: when decode returns normally, every byte it wrote went to a position
    below len(buffer): the model's scatter never drops a write and the Go code never indexes
    buffer[] out of range (start >= 0 is the caller's obligation; see seg_pos_nonneg in
-   RleFrameProofs). *)
+   RleFrameLemmas). *)
 Lemma Ok_inj : forall A (a b : A), Ok a = Ok b -> a = b.
 Proof. intros A a b H. inversion H. reflexivity. Qed.
 
